@@ -177,9 +177,17 @@ def case_fix(run, i):
             cls = "refusal:duplicate-reference"
     run.begin_case("fix", i, cls=cls, options=opts, info=info)
     shuffled_in = variant == 5
-    if shuffled_in:
+    if shuffled_in and rng.random() < 0.5:
         tgt = tgt.iloc[rng.permutation(len(tgt))].reset_index(drop=True)
         ref = ref.iloc[rng.permutation(len(ref))].reset_index(drop=True)
+    elif shuffled_in:
+        # `sort -k1,1 -k2,2n` order: every chromosome one ascending block, the blocks in string order (chr1, chr11, chr2, ...):
+        # looks sorted to anything that does not know the genome's order
+        tgt = tgt.sort_values(["chromosome", "start", "end"], kind="mergesort").reset_index(drop=True)
+        ref = ref.sort_values(["chromosome", "start", "end"], kind="mergesort").reset_index(drop=True)
+        if len(anti):
+            anti = anti.sort_values(["chromosome", "start", "end"], kind="mergesort").reset_index(drop=True)
+        run.extra["inputs-in-string-chromosome-order"] += 1
     if i % 3 == 1 and variant != 4:
         # non-default row labels, as on filtered tables
         tgt = tgt.set_axis(np.arange(len(tgt)) * 2 + 3)
